@@ -211,3 +211,51 @@ package tree
 //@   flag treeop
 //@   allocates chan, EdgeIndex, hashmap.HashMap
 //@   ensures [channel_or_error] result1 == nil ==> result0 != nil && !closed(result0)
+
+// ---------------------------------------------------------------------------
+// Collapse (property C07): the set of branches handed to RemoveEdges is
+// exactly the set of branches satisfying the documented criterion
+// ---------------------------------------------------------------------------
+
+//@ func (*tree.Tree).RemoveEdges
+//@   flag treeop
+//@   requires t != nil
+
+//@ define lowsupport(e *Edge, s float64) bool = e.support != -1 && e.support < s
+//@ define shortbranch(e *Edge, l float64) bool = e.length <= l
+//@ define tdepth(e *Edge) int = e.ntaxleft <= e.ntaxright ? e.ntaxleft : e.ntaxright
+//@ define indepth(e *Edge, lo int, hi int) bool = tdepth(e) >= lo && tdepth(e) <= hi
+
+//@ func (*tree.Tree).CollapseLowSupport
+//@   flag noframe
+//@   requires t != nil
+//@   call (*tree.Tree).RemoveEdges [only_branches_with_present_support_below_threshold] forall k int :: 0 <= k && k < len(a3) ==> a3[k] != nil && lowsupport(a3[k], support)
+//@   call (*tree.Tree).RemoveEdges [every_such_branch_is_selected] forall j int :: 0 <= j && j < len(edges) && lowsupport(edges[j], support) ==> (exists k int :: 0 <= k && k < len(a3) && a3[k] == edges[j])
+//@   call (*tree.Tree).RemoveEdges [tips_never_requested_for_removal] a2 == false
+//@   loop 1
+//@     invariant [separate_storage] arr(lowsupportbranches) != arr(edges)
+//@     invariant [branches] forall k int :: 0 <= k && k < len(edges) ==> edges[k] != nil
+//@     invariant [sound] forall k int :: 0 <= k && k < len(lowsupportbranches) ==> lowsupportbranches[k] != nil && lowsupport(lowsupportbranches[k], support)
+//@     invariant [complete] forall j int :: 0 <= j && j <= rangeindex && lowsupport(edges[j], support) ==> (exists k int :: 0 <= k && k < len(lowsupportbranches) && lowsupportbranches[k] == edges[j])
+
+//@ func (*tree.Tree).CollapseShortBranches
+//@   flag noframe
+//@   requires t != nil
+//@   call (*tree.Tree).RemoveEdges [only_branches_not_longer_than_threshold] forall k int :: 0 <= k && k < len(a3) ==> a3[k] != nil && shortbranch(a3[k], length)
+//@   call (*tree.Tree).RemoveEdges [every_such_branch_is_selected] forall j int :: 0 <= j && j < len(edges) && shortbranch(edges[j], length) ==> (exists k int :: 0 <= k && k < len(a3) && a3[k] == edges[j])
+//@   loop 1
+//@     invariant [separate_storage] arr(shortbranches) != arr(edges)
+//@     invariant [branches] forall k int :: 0 <= k && k < len(edges) ==> edges[k] != nil
+//@     invariant [sound] forall k int :: 0 <= k && k < len(shortbranches) ==> shortbranches[k] != nil && shortbranch(shortbranches[k], length)
+//@     invariant [complete] forall j int :: 0 <= j && j <= rangeindex && shortbranch(edges[j], length) ==> (exists k int :: 0 <= k && k < len(shortbranches) && shortbranches[k] == edges[j])
+
+//@ func (*tree.Tree).CollapseTopoDepth
+//@   flag noframe
+//@   requires t != nil
+//@   call (*tree.Tree).RemoveEdges [only_branches_within_the_depth_interval] forall k int :: 0 <= k && k < len(a3) ==> a3[k] != nil && indepth(a3[k], mindepthThreshold, maxdepthThreshold)
+//@   call (*tree.Tree).RemoveEdges [every_such_branch_is_selected] forall j int :: 0 <= j && j < len(edges) && indepth(edges[j], mindepthThreshold, maxdepthThreshold) ==> (exists k int :: 0 <= k && k < len(a3) && a3[k] == edges[j])
+//@   loop 1
+//@     invariant [separate_storage] arr(depthbranches) != arr(edges)
+//@     invariant [branches] forall k int :: 0 <= k && k < len(edges) ==> edges[k] != nil
+//@     invariant [sound] forall k int :: 0 <= k && k < len(depthbranches) ==> depthbranches[k] != nil && indepth(depthbranches[k], mindepthThreshold, maxdepthThreshold)
+//@     invariant [complete] forall j int :: 0 <= j && j <= rangeindex && indepth(edges[j], mindepthThreshold, maxdepthThreshold) ==> (exists k int :: 0 <= k && k < len(depthbranches) && depthbranches[k] == edges[j])
